@@ -17,7 +17,7 @@ RULE = ("task lists: EVERY list of <=L tasks over 8 concrete tasks of the three 
         "sampler's internal threshold, and EVERY shot count 1..130 on two basis states with bit-exact comparison; exact values: circuits x operators incl. X/Y terms and constants, tasks with shot numbers None/0/5 vs psi^dagger M psi; binding: every list of <=3 tasks "
         "(two sharing ONE circuit object, zero-shot and constant-operator tasks with parametrised circuits) x per-task maps. non-trivial = list mixing at least two task kinds / non-palindromic basis state")
 ASSUMPTIONS = ["sampling randomness scripted with default answers (basis states have a single outcome with p>1e-12)", "the runner records what it is asked to run through an overriding subclass that only logs and delegates"]
-BOUNDS = {"quick": {"list_len": 3}, "thorough": {"list_len": 5}}
+BOUNDS = {"quick": {"list_len": 4}, "thorough": {"list_len": 5}}
 
 
 def tasks_pool():
@@ -195,7 +195,7 @@ FUNCS = {"task_lists": list_case, "split": split_case, "shot_sweep": shots_case,
 
 def run(run):
     thorough = run.tier == "thorough"
-    L = 5 if thorough else 3
+    L = 5 if thorough else 4
     lists = [list(c) for k in range(0, L + 1) for c in itertools.product(range(8), repeat=k)]
     secs = [Section("task_lists", [{"tasks": l} for l in lists], list_case, horizon=120, desc="every task list of length <= %d over 8 tasks of the three kinds" % L),
             Section("split", [{"tasks": l} for l in lists if len(l) <= 3], split_case, desc="split_estimation_tasks_to_measure partitions positions in ascending order")]
@@ -209,7 +209,7 @@ def run(run):
         for ln in range(0, (3 if thorough and n == 2 else 2) + 1):
             for combo in itertools.product(range(len(A)), repeat=ln):
                 ex.append({"ops": [A[i] for i in combo], "n": n, "operators": list(range(len(OPS_XY)))})
-    secs.append(Section("exact", ex if thorough else ex[::2], exact_case, horizon=120, desc="calculate_exact_expectation_values vs psi^dagger M psi (operators with X/Y terms)"))
+    secs.append(Section("exact", ex, exact_case, horizon=120, desc="calculate_exact_expectation_values vs psi^dagger M psi (operators with X/Y terms)"))
     MV = [[0.3, -1.1], [2.5, 0.7], [-0.4, 0.0]]
     bc = []
     for k in range(0, 4):
